@@ -111,7 +111,7 @@ func runFileSink(rc *RunCtx, prop string, crash bool, faults bool) {
 	}
 	sink.TimestampOnlyOnRotate = tp.Choose(2, "tsonrot") == 0
 	// (0666 / 0664 / 0660 carry bits that the process umask would clear from a mode given to open(2))
-	sink.Mode = []os.FileMode{0, 0o640, 0o600, 0o644, 0o666, 0o664, 0o660}[tp.Choose(7, "mode")]
+	sink.Mode = []os.FileMode{0, 0o640, 0o600, 0o644, 0o666, 0o664, 0o660, 0o640 | os.ModeSetgid, 0o600 | os.ModeSticky}[tp.Choose(9, "mode")] // (the last two: a mode is more than its permission bits)
 	format := ""
 	if tp.Choose(3, "format") == 0 {
 		format = "fmt1"
@@ -287,16 +287,28 @@ func runFileSink(rc *RunCtx, prop string, crash bool, faults bool) {
 			model.after(e, tb, time.Now())
 		}
 	}
-	externalRename := func() {
+	handedOver := map[int]int{} // file identity -> step at which a Reopen following its external rename returned success
+	lastHanded := -1
+	externalRename := func(fresh bool) {
 		// what logrotate does: move the active file out of the sink's name space
 		active := activePath(sim)
+		lastHanded = -1
 		if active == "" {
 			return
+		}
+		if fresh {
+			// (its "create" directive: a new, empty file under the old name, before the signal)
+			defer func() {
+				if lastHanded >= 0 && os.WriteFile(active, nil, 0600) == nil {
+					simrt.Probe("fs.external-rename-fresh-file-in-place")
+				}
+			}()
 		}
 		renamed++
 		to := filepath.Join(logDir, fmt.Sprintf("rotated-away-%d.keep", renamed))
 		if err := os.Rename(active, to); err == nil {
 			renamedPaths = append(renamedPaths, to)
+			lastHanded = sim.FS.Opens[len(sim.FS.Opens)-1].File
 			simrt.Probe("fs.external-rename")
 			if seqMode {
 				model.renamedAway(active)
@@ -311,6 +323,7 @@ func runFileSink(rc *RunCtx, prop string, crash bool, faults bool) {
 			ev     *fsEvent
 			d      time.Duration
 			silent bool // rmdir: nobody tells the sink (no Reopen follows)
+			fresh  bool // extrename: a new empty file is put under the old name before Reopen is called
 		}
 		var prog []step
 		var pd []string
@@ -359,6 +372,11 @@ func runFileSink(rc *RunCtx, prop string, crash bool, faults bool) {
 					pd = append(pd, "remove-directory+reopen")
 				}
 			case c < 17:
+				if prop == "C08" && tp.Choose(2, "fresh-file-in-place") == 0 {
+					prog = append(prog, step{kind: "extrename", fresh: true})
+					pd = append(pd, "external-rename+create-empty-file-under-the-old-name+reopen")
+					break
+				}
 				prog = append(prog, step{kind: "extrename"})
 				pd = append(pd, "external-rename+reopen")
 			default:
@@ -398,9 +416,12 @@ func runFileSink(rc *RunCtx, prop string, crash bool, faults bool) {
 						twin.Reopen()
 						break
 					}
-					externalRename()
+					externalRename(st.fresh)
 					simrt.Yield("writer:between-rename-and-reopen")
 					err := sink.Reopen()
+					if err == nil && lastHanded >= 0 && nWriters == 1 {
+						handedOver[lastHanded] = sim.Step
+					}
 					if seqMode {
 						model.afterReopen(err)
 					}
@@ -547,6 +568,19 @@ func runFileSink(rc *RunCtx, prop string, crash bool, faults bool) {
 	}
 	// acknowledgement (real-time) order
 	if prop == "C08" {
+		// a file the operator renamed away is the operator's once the Reopen that followed has returned
+		// success: whatever is acknowledged later belongs into the sink's own files
+		for _, e := range events {
+			if !(e.Returned && e.Err == nil) {
+				continue
+			}
+			for _, ri := range att[e.ID].recs {
+				r := fs.Writes[ri]
+				if at, ok := handedOver[r.File]; ok && e.CallStep > at && r.Errno == 0 && len(r.Data) > 0 {
+					rc.Failf("C08.written-to-renamed-away-file", "", "event #%d was submitted after Reopen had returned success (step %d), yet its bytes went to the file that had been renamed away before that Reopen: they are in none of the sink's files", e.ID, at)
+				}
+			}
+		}
 		for _, a := range events {
 			for _, b := range events {
 				pa, oka := pos[a.ID]
@@ -944,8 +978,9 @@ func (m *fsModel) checkDir(when string, justRotated bool) {
 			continue
 		}
 		info, err := en.Info()
-		if err == nil && info.Mode().Perm() != m.wantMode {
-			m.fail("file-mode", "", "%s: file %s has mode %o, expected %o", when, name, info.Mode().Perm(), m.wantMode)
+		const modeBits = os.ModePerm | os.ModeSetuid | os.ModeSetgid | os.ModeSticky
+		if err == nil && info.Mode()&modeBits != m.wantMode {
+			m.fail("file-mode", "", "%s: file %s has mode %v, expected %v", when, name, info.Mode()&modeBits, m.wantMode)
 		}
 	}
 	// timestamps strictly increasing in creation order == name order
